@@ -9,6 +9,7 @@ import (
 	"os"
 	"path/filepath"
 
+	blocks "github.com/ipfs/go-block-format"
 	carv2 "github.com/ipld/go-car/v2"
 
 	"carlab/internal/gen"
@@ -157,6 +158,22 @@ func runC14(t *mon.T, raw json.RawMessage) {
 	if d.TrustedCAR {
 		opts = append(opts, carv2.WithTrustedCAR(true))
 	}
+	if d.Seed%3 == 0 {
+		// both read limits exactly at what the archive needs: the header limit at the header body, the
+		// section limit at the longest section — every Next and SkipNext must still pass
+		maxSec := uint64(0)
+		for _, s := range ref.Sections {
+			if l := uint64(len(s.Cid.Raw) + len(s.Data)); l > maxSec {
+				maxSec = l
+			}
+		}
+		hb, _, _ := refcar.Uvarint(payload)
+		if a.Version == 2 && hb < 10 {
+			hb = 10 // the pragma is read under the same limit
+		}
+		opts = append(opts, carv2.MaxAllowedHeaderSize(hb), carv2.MaxAllowedSectionSize(maxSec))
+		t.Cover("limits-exactly-at-the-maxima")
+	}
 	for _, sn := range sources {
 		for _, cs := range strings {
 			var src io.Reader
@@ -228,6 +245,36 @@ func c14One(t *mon.T, d c14Desc, sn string, src io.Reader, cs uint32, n int, ref
 		return
 	}
 	isDataReader := sn == "Reader.DataReader"
+	// every metadata record and block handed out is kept and looked at again at the very end:
+	// what was returned for block i must still describe block i after later calls
+	type kept struct {
+		i    int
+		meta *carv2.BlockMetadata
+		cid  []byte
+		data []byte
+		blk  blocks.Block
+	}
+	var keep []kept
+	defer func() {
+		for _, k := range keep {
+			s := ref.Sections[k.i]
+			if k.meta != nil {
+				wantSrc := po + s.Offset
+				if isDataReader {
+					wantSrc = s.Offset
+				}
+				if !bytes.Equal(k.meta.Cid.Bytes(), s.Cid.Raw) || k.meta.Offset != s.Offset || k.meta.SourceOffset != wantSrc || k.meta.Size != uint64(len(s.Data)) {
+					t.ViolateD(label+"/SkipNext/retained-metadata-changed", map[string]any{"choices": fmt.Sprintf("%0*b", n, cs), "i": k.i},
+						"%s: the metadata returned for block %d no longer describes it after later calls (it is shared state)", label, k.i)
+					return
+				}
+			} else if !bytes.Equal(k.blk.Cid().Bytes(), s.Cid.Raw) || !bytes.Equal(k.blk.RawData(), s.Data) {
+				t.ViolateD(label+"/Next/retained-block-changed", map[string]any{"choices": fmt.Sprintf("%0*b", n, cs), "i": k.i},
+					"%s: the block returned for section %d changed after later calls (its bytes are shared state)", label, k.i)
+				return
+			}
+		}
+	}()
 	for i := 0; i <= n; i++ {
 		skip := cs&(1<<uint(i)) != 0
 		op := "Next"
@@ -263,6 +310,7 @@ func c14One(t *mon.T, d c14Desc, sn string, src io.Reader, cs uint32, n int, ref
 					"%s: SkipNext #%d metadata (Offset,SourceOffset,Size) = (%d,%d,%d), reference section table says (%d,%d,%d)", label, i, m.Offset, m.SourceOffset, m.Size, s.Offset, wantSrc, len(s.Data))
 				return
 			}
+			keep = append(keep, kept{i: i, meta: m})
 		} else {
 			t.Cover("op:Next:" + sn)
 			b, err := br.Next()
@@ -281,6 +329,7 @@ func c14One(t *mon.T, d c14Desc, sn string, src io.Reader, cs uint32, n int, ref
 				t.Violatef(label+"/Next/wrong-block", "%s: %s #%d returned a different block", label, op, i)
 				return
 			}
+			keep = append(keep, kept{i: i, blk: b})
 		}
 	}
 	_ = drBase
